@@ -30,7 +30,7 @@ CONTAINER_PREFIXES = ['> ', '>', '- ', '1. ', '12) ', '+   ', '* ', '>  ', '0. '
 BLOCK_OPENERS = ['# ', '## ', '###### ', '####### ', '#', '```', '~~~', '````', '``` py', '~~~ a`b', '***', '---', '___',
                  '- - -', '===', '=', '--', '|a|b|', '|:-|-:|', '|---|', 'a|b', '-|-', '[l]: u "t"', '[l]: <u v>', '[l]:',
                  '[l]: /u\n"t"', '| a | b |\n|---|---|', 'a|b\n-|:-:\nc|d', '|x|\n|-|\n', '<div>', '</div>', '<!--', '-->', '<?', '?>', '<![CDATA[', ']]>', '<pre>', '</pre>', '<script>',
-                 '<!X', '<a b="c">', '<span>', '    ', '\t']
+                 '<!X', '<a b="c">', '<span>', '    ', '\t', '</body>', '<body class="x">', '</html>', '<html>', '<head>']
 INLINE = ['*', '**', '***', '_', '__', '`', '``', '` `', '[', ']', '](', ')', '][', '[]', '![', '(u)', '(<u v>)', '("t")',
           '&amp;', '&#35;', '&#x22;', '&#0;', '&x;', '&', '\\', '\\*', '\\\\', '\\[', '<http://a.b>', '<a@b.c>', '<x:y z>',
           '<b>', '</b>', '<b c="d">', '<!-- c -->', '<?p?>', '$x$', '$$y$$', '[[a|b]]', '[[a]]', '{{m}}', '{{/m}}', '~~', '~',
@@ -58,7 +58,7 @@ def numeric_ref(t):
     return '&#' + body + (';' if not t.chance(30) else '')
 
 
-INLINE += ['a\tb', 'foo\tbar', 'x\t', 'a>\tb', 'q>\t', '&#1114111;', '&#1114112;', '&#x10FFFF;', '&#x110000;', '&#xD800;', '&#9999999;', '&#xFFFFFF;', '&#128;', '&#x80;', '\x00', '\ufeff']
+INLINE += ['</body>', '<body>', '</html>', '<head>', '</script>', '<title>', 'a\tb', 'foo\tbar', 'x\t', 'a>\tb', 'q>\t', '&#1114111;', '&#1114112;', '&#x10FFFF;', '&#x110000;', '&#xD800;', '&#9999999;', '&#xFFFFFF;', '&#128;', '&#x80;', '\x00', '\ufeff']
 
 
 def line_doc(t, max_lines=14):
